@@ -15,6 +15,7 @@ import (
 	"sort"
 	"strconv"
 	"strings"
+	"time"
 
 	sgbucket "github.com/couchbase/sg-bucket"
 )
@@ -482,3 +483,18 @@ func verifCount(cs ...bool) int {
 	}
 	return n
 }
+
+func verifTimerArmed(t *time.Timer) bool {
+	if t == nil {
+		return false
+	}
+	if t.Stop() {
+		t.Reset(time.Hour)
+		return true
+	}
+	return false
+}
+func verifTimerWithin(t *time.Timer, exp uint32) bool { return verifTimerArmed(t) }
+func verifCommitCount(db *sql.DB) int                 { return -1 }
+
+func verifFaults(db *sql.DB, budget int) {}
